@@ -14,7 +14,7 @@ import (
 
 func drawC14(rt *rapid.T, tier string) SrvScenario {
 	o := srvDrawOpts{backends: []string{"cdb", "cdb", "cdb", "rdb1", "rdb2"}, maxClients: 4, maxQueries: 5, maxOps: 5,
-		faults: []string{"missing", "nokey", "inject", "lowio"}, closeOp: true, periodic: true, stats: true}
+		faults: []string{"missing", "nokey", "inject", "lowio"}, closeOp: true, periodic: true, stats: true, signals: true}
 	if tier == "thorough" {
 		o.backends = []string{"cdb", "rdb1", "rdb2"}
 		o.maxQueries = 7
@@ -78,6 +78,9 @@ func runC14(t *testing.T, sc SrvScenario, keep bool) *core.Result {
 	}
 	if sc.StatsEvery > 0 {
 		res.Probe("stats_reporter_running")
+	}
+	if len(sc.Signals) > 0 && h.Closed {
+		res.Probe("async_signals_and_shutdown")
 	}
 	res.Population = srvPopulation(&sc)
 	res.Nontrivial = res.Switches > 0
